@@ -151,9 +151,11 @@ ApplyReq(st, r) ==
                  IN [st EXCEPT !.cfg = Put(st.cfg, r.k, [content |-> r.v, ty |-> ty, desc |-> ds,
                                                           hist |-> TailTo(Append(old, [id |-> r.hid, content |-> r.v]), HistMax)])]
       [] r.t = "cfg_del" -> [st EXCEPT !.cfg = Del(st.cfg, r.k)]
-      \* namespace name: "" = not given (an existing namespace keeps its name), GivenEmpty = the empty name
+      \* namespace name: "" = not given (a listed namespace keeps its name, a new one is listed under its id),
+      \* GivenEmpty = the empty name
       [] r.t = "ns_set"  -> [st EXCEPT !.ns = Put(st.ns, r.k, IF r.v = GivenEmpty THEN ""
-                                                               ELSE IF r.v = "" /\ r.k \in DOMAIN ListedNs(st) THEN ListedNs(st)[r.k] ELSE r.v)]
+                                                               ELSE IF r.v # "" THEN r.v
+                                                               ELSE IF r.k \in DOMAIN ListedNs(st) THEN ListedNs(st)[r.k] ELSE r.k)]
       [] r.t = "ns_del"  -> [st EXCEPT !.ns = Del(st.ns, r.k)]
       [] r.t = "usr_set" -> [st EXCEPT !.usr = Put(st.usr, r.k, r.v)]
       [] r.t = "usr_del" -> [st EXCEPT !.usr = Del(st.usr, r.k)]
